@@ -67,14 +67,16 @@ theorem insn_size_exact (pos : Nat → Nat) (a : Nat) (si : SInsn) : (si.encode 
 
 /-- `code_read_encode_partial`: reading any legal encoding of a method body (`Spec.CodeLayout.encode`: any instruction
 forms, any pool indices, switches at any alignment, exception table incl. `end_pc = code_length`, any number and order
-of `LineNumberTable` / `LocalVariableTable` / `LocalVariableTypeTable` / unknown attributes) succeeds, consumes exactly
-the attribute body, and — once the opaque label ids are read back as the positions of the instructions that carry
-them (`Code.resolve`) — delivers **exactly** the facts of the layout: same instructions, every branch target, switch
-target, exception range and handler, line entry and local-variable range pointing at the instruction it was
-encoded for; line and local tables merged in file order; unknown attributes byte for byte; nothing else.
+of `LineNumberTable` / `LocalVariableTable` / `LocalVariableTypeTable` / unknown attributes, a `StackMapTable` with
+every frame kind in compact or extended form) succeeds, consumes exactly the attribute body, and — once the opaque
+label ids are read back as the positions of the instructions that carry them (`Code.resolve`) — delivers **exactly**
+the facts of the layout: same instructions, every branch target, switch target, exception range and handler, line
+entry, local-variable range and `Uninitialized` verification type pointing at the instruction it was encoded for;
+every stack-map frame attached to the instruction its accumulated `offset_delta` designates; line and local tables
+merged in file order; unknown attributes byte for byte; nothing else.
 
-Partial: the attributes `StackMapTable`, `StackMap`, `RuntimeVisibleTypeAnnotations`, `RuntimeInvisibleTypeAnnotations`
-of `Code` are outside the proved fragment (they are modelled and covered by the correspondence run only).
+Partial: the attributes `StackMap` (CLDC), `RuntimeVisibleTypeAnnotations`, `RuntimeInvisibleTypeAnnotations` of `Code`
+are outside the proved fragment (they are modelled and covered by the correspondence run only).
 `hleg.refs` (fewer than 65535 label references) is the domain in which the reader's `u16` label counter cannot
 overflow. -/
 theorem code_read_encode_partial (p : Pool) (bsms : Option (List Bsm)) (c : CodeLayout) (hleg : c.Legal p bsms) (r : Bytes) :
@@ -89,17 +91,18 @@ theorem code_read_raw (p : Pool) (bsms : Option (List Bsm)) (c : CodeLayout) (hl
   readCode_encode p bsms c hleg r
 
 /-- non-vacuity of `code_read_encode_partial`: `goto L1; L1: return` with a handler range reaching the end of the code
-(`end_pc = code_length`) and an unknown attribute is a legal layout -/
+(`end_pc = code_length`), an unknown attribute and a `StackMapTable` whose frame mentions an uninitialized object is a
+legal layout -/
 def exampleCode : CodeLayout :=
   { maxStack := 1, maxLocals := 0,
     insns := [⟨.goto 1, .plain, 0, 0⟩, ⟨.simple 0xb1, .plain, 0, 0⟩],
     exceptions := [⟨0, 2, 1, 0, none⟩],
-    attrs := [.unknown 1 [70, 111, 111] [1, 2]] }
+    attrs := [.unknown 1 [70, 111, 111] [1, 2], .frames 2 [⟨1, false, .same1 (.uninit 0)⟩]] }
 
-def examplePool : Pool := poolTable [.utf8 [70, 111, 111]]
+def examplePool : Pool := poolTable [.utf8 [70, 111, 111], .utf8 sStackMapTable]
 
 example : exampleCode.Legal examplePool none := by
-  refine ⟨⟨by decide, by decide, ?_⟩, by decide, by decide, by decide, ?_, by decide, ?_, by decide⟩
+  refine ⟨⟨by decide, by decide, ?_⟩, by decide, by decide, by decide, ?_, by decide, ?_, by decide, by decide⟩
   · intro i hi
     match i, hi with
     | 0, _ => exact ⟨by decide, by unfold inI16 relOff; decide⟩
@@ -109,9 +112,10 @@ example : exampleCode.Legal examplePool none := by
     subst he
     exact ⟨by decide, by decide, by decide, by decide, rfl⟩
   · intro a ha
-    simp only [exampleCode, List.mem_singleton] at ha
-    subst ha
-    exact ⟨by decide, rfl, by decide, by decide⟩
+    simp only [exampleCode, List.mem_cons, List.not_mem_nil, or_false] at ha
+    rcases ha with rfl | rfl
+    · exact ⟨by decide, rfl, by decide, by decide⟩
+    · exact ⟨by decide, rfl, by decide, ⟨by decide, trivial, (by decide : (0 : Nat) < 2), fun _ => by decide, trivial⟩, by decide⟩
 
 /-! ## modified UTF-8 (`jstring.rs`, `java_string`) -/
 
@@ -156,8 +160,8 @@ the methods whatever its position, unknown attributes byte for byte.
 Fragment (attributes covered by the theorem): class — `Deprecated Synthetic SourceFile Signature InnerClasses
 EnclosingMethod NestHost NestMembers PermittedSubclasses BootstrapMethods` + unknown; field — `Deprecated Synthetic
 ConstantValue Signature` + unknown; method — `Deprecated Synthetic Code Exceptions Signature` + unknown; `Code` —
-`LineNumberTable LocalVariableTable LocalVariableTypeTable` + unknown, exception table.
-Outside the fragment (modelled, tied by the correspondence run and the oracles only): `StackMapTable`, `StackMap`,
+`StackMapTable LineNumberTable LocalVariableTable LocalVariableTypeTable` + unknown, exception table.
+Outside the fragment (modelled, tied by the correspondence run and the oracles only): `StackMap` (CLDC),
 all `Runtime(In)Visible(Type|Parameter)Annotations`, `AnnotationDefault`, `MethodParameters`, `SourceDebugExtension`,
 `Record`, `Module`, `ModulePackages`, `ModuleMainClass`. -/
 theorem class_read_encode_partial (c : ClassLayout) (hleg : c.Legal) (facts : ClassFacts) (hfacts : c.facts = some facts)
@@ -191,5 +195,15 @@ theorem parameter_annotations_dropped_witness (p : Pool) (bsms : Option (List Bs
         sRIPA ≠ sRIA ∧ sRIPA ≠ sRVTA ∧ sRIPA ≠ sRITA ∧ sRIPA ≠ sRVPA by decide,
       show sRVPA ≠ sDeprecated ∧ sRVPA ≠ sSynthetic ∧ sRVPA ≠ sCode ∧ sRVPA ≠ sExceptions ∧ sRVPA ≠ sSignature ∧ sRVPA ≠ sRVA ∧
         sRVPA ≠ sRIA ∧ sRVPA ≠ sRVTA ∧ sRVPA ≠ sRITA by decide]
+
+/-- the CLDC `StackMap` attribute (outside the fragment; a defect of the reader): its frames are sorted by **label id**
+(`frames.sort_by_key(|&(label, _)| label)`), and ids are handed out in creation order, not in offset order.  Frames
+listed by increasing offset (0 then 4) whose labels were created the other way round (the branch target 4 during the
+first pass: id 0; offset 0 while reading the attribute: id 1) end up as `[(0, frame@4), (1, frame@0)]`; at the first
+instruction (label id 1) `takeFrame` looks at the head only, finds id 0, and the frame of offset 0 is never delivered. -/
+theorem cldc_stackmap_frame_order_witness :
+    (takeFrame (some (([(1, Frame.full [.int] []), (0, Frame.full [.float] [])] : List (Nat × Frame)).mergeSort
+      (fun a b => decide (a.1 ≤ b.1)))) (some 1)).1.isNone = true := by
+  simp [List.mergeSort, List.MergeSort.Internal.splitInTwo, takeFrame]
 
 end Thm.C01
